@@ -15,6 +15,8 @@ ASSUMPTIONS = [
     "every generated successor); pass B (ordered canon) is depth-bounded",
     "a missing/empty neighbour entry of an existing isolated atom is not a view disagreement",
     "well-formedness rules of DESIGN.md 4.3; non-injective relabelling is not generated",
+    "besides the empty graph the search starts from fixed non-initial roots (role-carrying bonds; four-atom skeleton; skeleton with "
+    "atom+bond descriptors; skeleton with stereo changes), each explored to its own depth bound",
     "deep histories: a fixed family of long (600 / 3000 step) alphabet cycles with coprime strides on one live object",
 ]
 BUDGET = {"quick": 150, "thorough": 1500}
@@ -26,6 +28,8 @@ PLAN = {
     RG.SMG: (6, 8, 3, 4),
     RG.SCRG: (5, 7, 3, 4),
 }
+# BFS depth from the non-initial roots of bfs.roots() (quick, thorough)
+ROOT_DEPTH = {RG.CRG: (3, 5), RG.SMG: (3, 5), RG.SCRG: (3, 4)}
 
 
 def drive(ctx):
@@ -35,6 +39,10 @@ def drive(ctx):
         da, db = (aq, bq) if tier == "quick" else (at, bt)
         allstats.append(bfs.explore(ctx, kind, MODE, da, False, tier, label=f"{kind}/A"))
         allstats.append(bfs.explore(ctx, kind, MODE, db, True, tier, label=f"{kind}/B"))
+    for kind, (rq, rt) in ROOT_DEPTH.items():
+        for name, hist in bfs.roots(kind):
+            allstats.append(bfs.explore(ctx, kind, MODE, rq if tier == "quick" else rt, False, tier,
+                                        label=f"{kind}/A/root:{name}", root=hist))
     deep = [it for kind in PLAN for it in bfs.deep_items(kind, MODE, tier)]
     ctx.pmap(bfs.deep_walk, deep)
     allstats.append({"deep_histories": len(deep), "length_bound": deep[0]["len"]})
